@@ -193,7 +193,7 @@ static void gen_form(const Form& f, int mode, bool thorough, FILE* out) {
       if (bad) continue;
       if (f.pk == "E") {
         if (f.k && (v % 4) != 0) in.k = 1 + v;
-        if (f.k && f.z && (v % 4) == 2) in.z = 1;
+        if (f.k && f.z && (v % 4) == 2 && !(nops > 0 && kind[0] == 'm')) in.z = 1;
         if (nmem == 0 && f.er && v == 1) in.er = 1;
         else if (nmem == 0 && f.sae && v == 1) in.sae = 1;
       }
@@ -234,6 +234,12 @@ static void run_a64(const char* in_path, const char* out_path) {
 }
 
 int main(int argc, char** argv) {
+  if (argc >= 2 && std::string(argv[1]) == "featnames") {       // every feature name the library can report (x86)
+    vj::W w; w.beginArr();
+    for (uint32_t id = 1; id <= uint32_t(CpuFeatures::X86::kMaxValue); id++) w.val(feature_name(Arch::kX64, id));
+    w.endArr(); w.emit(stdout);
+    return 0;
+  }
   if (argc < 4) { fprintf(stderr, "usage: rwinfo x86 <forms> <out> <tier> | x86replay <in> <out> | a64 <cases> <out>\n"); return 2; }
   std::string cmd = argv[1];
   if (cmd == "a64") { run_a64(argv[2], argv[3]); return 0; }
